@@ -32,11 +32,20 @@ type osRootSource struct {
 	root *os.Root
 }
 
+// rootFS is like (*os.Root).FS, but does not insist on fs.ValidPath: file
+// names are arbitrary bytes, whereas fs.ValidPath rejects names that are not
+// valid UTF-8, which made fs.WalkDir skip the contents of such directories.
+type rootFS struct {
+	root *os.Root
+}
+
+func (r rootFS) Open(name string) (fs.File, error) { return r.root.Open(name) }
+
 func newOSRootSource(root *os.Root) FileSource {
 	return &osRootSource{root: root}
 }
 
-func (s *osRootSource) FS() fs.FS                            { return s.root.FS() }
+func (s *osRootSource) FS() fs.FS                            { return rootFS{s.root} }
 func (s *osRootSource) Open(name string) (File, error)       { return s.root.Open(name) }
 func (s *osRootSource) Readlink(name string) (string, error) { return s.root.Readlink(name) }
 func (s *osRootSource) Close() error                         { return s.root.Close() }
